@@ -200,8 +200,7 @@ def run(ctx: Ctx):
     if samp:
         v = samp[0].value
         inner = v.func.value if isinstance(v.func, ast.Attribute) else None
-        ok = isinstance(inner, ast.Call) and ast.unparse(inner.func) == f"{tm}.next_state_dist" and ast.unparse(inner.args[0]) == ts \
-            and ast.unparse(inner.args[1]).replace(" ", "") == f"self.policy({tm},{ts})" and ast.unparse(samp[0].targets[0]) == ts
+        ok = ST.m(f"{ts} = {tm}.next_state_dist({ts}, self.policy({tm}, {ts})).sample(REST=ANY)", samp[0]) is not None
         ctx.check(ok, "TRIAL-2", tr, samp[0], "successor ~ next_state_dist(s, greedy(s)); the state variable advances to it", "", f"trial step is `{name_free(tr, samp[0])}`")
         ctx.check(kwarg(v, "rng") is not None and ast.unparse(kwarg(v, "rng")) == "self.rng", "TRIAL-2", tr, samp[0], "successor sampled with the planner's generator", "", "successor not sampled with self.rng")
         bu_i = [i for i, n in enumerate(w.body) if "self._bellman_update" in ast.unparse(n)]
